@@ -13,7 +13,7 @@ EXPLANATION = ("G1 on every path of the frame decoder, `Ok(None)` (need more byt
 TRUSTED = ['tokio_util::codec::Framed', 'nom streaming parsers report Incomplete on short input', 'bytes::BytesMut::advance']
 UNDECIDED = ['Framed\'s read loop (trusted)', 'sizes beyond the read buffer (runtime quantity)']
 ASSUMPTIONS = []
-SHARED = [('C07', ('B2.reader',), 'G5.length-reader'), ('C07', ('B7.',), 'G6.tlv-parser')]      # the frame boundary is where the length reader says it is, however the bytes arrive
+SHARED = [('C07', ('B2.reader',), 'G5.length-reader'), ('C07', ('B7.', 'B4.remainder'), 'G6.tlv-parser')]      # the frame boundary is where the length reader says it is, however the bytes arrive
 CONFIGS = ['default', 'nodefault', 'rustls', 'gssapi']
 
 MUTATORS = ('advance', 'split_to', 'split_off', 'split', 'truncate', 'clear', 'resize', 'extend', 'extend_from_slice', 'put', 'put_slice', 'unsplit', 'set_len', 'freeze', 'copy_to_bytes', 'get_u8')
